@@ -158,4 +158,35 @@ def runChecked (sem : Sem) (runner : Runner) (prog : Program) (root : Nat) (valu
     | .error e => .rejected e
     | .ok w => .ran (run sem runner prog root values cfg) w
 
+/-- what a checked `map` call produced: refused before the map-level run-start (nothing ran, nothing was emitted, nothing is shut
+down), or the map's outcome -/
+inductive MapChecked
+  | rejected (e : VErr)
+  | ran (out : MapOut)
+  deriving Inhabited
+
+/-- the `map_over` names the call gives no value for -/
+def absentMapOver (values : AL Val) (mapOver : List Name) : List Name :=
+  mapOver.filter fun n => (AL.get? values n).isNone
+
+/-- `validate_map_inputs`: one (arbitrary) element stands for each mapped-over sequence — names only -/
+def itemValues (values : AL Val) (mapOver : List Name) : AL Val :=
+  values.map fun kv => (kv.1, if mapOver.contains kv.1 then Val.none else kv.2)
+
+/-- `runner.map(...)`: the options (`max_concurrency`), the `map_over` names, the selection and the required inputs are validated
+before the map-level run-start event (fixes 2299be1, 1fcc5cf, b2c6023); anything else a single item may complain about is left to
+that item's own run -/
+def mapChecked (sem : Sem) (runner : Runner) (prog : Program) (root : Nat) (values : AL Val)
+    (mapOver : List Name) (mode : MapMode) (errMode : ErrMode) (cfg : RunCfg) (k : Option Int)
+    (entrypoint : Option Name) : MapChecked :=
+  let g := prog.getD root default
+  if !limitOk k then .rejected (.valueError "max_concurrency")
+  else if !(absentMapOver values mapOver).isEmpty then .rejected (.missingInput (absentMapOver values mapOver))
+  else match resolveRuntimeSelected g cfg.select with
+    | .error e => .rejected e
+    | .ok selected =>
+      match validateInputs g (itemValues values mapOver) entrypoint selected .warn with
+      | .error (.missingInput l) => .rejected (.missingInput l)
+      | _ => .ran (map sem runner prog root values mapOver mode errMode cfg)
+
 end HG
